@@ -14,7 +14,9 @@ func init() {
 // absent, lists of length 0..2.
 func H_C12_Kind() {
 	k := ParamInt("kind")
+	synthMarkerKind = Choose(4)
 	s := BuildSynth(k, 1)
+	synthMarkerKind = 0
 	var want []ast.Vertex
 	want = append(want, s.N)
 	for _, sl := range s.Slots {
@@ -103,13 +105,13 @@ func H_C12_Parsed() {
 	}
 	var pre []ast.Vertex
 	Walk(a.Root, nil, func(n, _ ast.Vertex) { pre = append(pre, n) })
+	seenNode := map[ast.Vertex]bool{}
 	for i := range pre {
-		for j := i + 1; j < len(pre); j++ {
-			if SamePtr(pre[i], pre[j]) {
-				Fail("C12:node-reachable-twice", kindName(KindOf(pre[i])))
-				return
-			}
+		if seenNode[pre[i]] {
+			Fail("C12:node-reachable-twice", kindName(KindOf(pre[i])))
+			return
 		}
+		seenNode[pre[i]] = true
 	}
 	rec := &RecVisitor{}
 	traverser.NewTraverser(rec).Traverse(a.Root)
